@@ -107,6 +107,7 @@ type world struct {
 	tampered   map[int]bool
 	loginTok   map[int]*hTok
 	loginAt    map[int]int64
+	admitted   map[int]string // browser -> id of the token its last completed login callback admitted ("" once a refresh has replaced it)
 	emitted    map[string]bool       // every cookie value the deployment ever emitted (name=value)
 	allRandoms map[string]string     // random value -> kind (distinctness oracle)
 	pendingAnswer *tokenAnswer
@@ -165,7 +166,7 @@ func s256(v string) string {
 
 func newWorld(sc int, rng interface{ Intn(int) int }) *world {
 	w := &world{sc: sc, syms: map[string]string{}, toks: map[string]*hTok{}, lastInit: map[int]*initRec{}, allInits: map[int][]*initRec{}, codes: map[string]*issuedCode{},
-		loggedIn: map[int]bool{}, tampered: map[int]bool{}, loginTok: map[int]*hTok{}, loginAt: map[int]int64{}, emitted: map[string]bool{}, allRandoms: map[string]string{}, rtOf: map[int]string{}, loggedOut: map[int]bool{}, jtiSeen: map[string]bool{}, born: map[string]int64{}, answerByCode: map[string]tokenAnswer{}, markersSent: map[int][]string{}}
+		loggedIn: map[int]bool{}, tampered: map[int]bool{}, loginTok: map[int]*hTok{}, loginAt: map[int]int64{}, admitted: map[int]string{}, emitted: map[string]bool{}, allRandoms: map[string]string{}, rtOf: map[int]string{}, loggedOut: map[int]bool{}, jtiSeen: map[string]bool{}, born: map[string]int64{}, answerByCode: map[string]tokenAnswer{}, markersSent: map[int][]string{}}
 	w.p = newProvider(keys()["p256a"], keys()["rsa2048a"])
 	if T.prop == "C15" || T.prop == "C03" { // providers whose discovery document names the authorization endpoint relative to the issuer
 		switch sc % 3 {
